@@ -538,6 +538,9 @@ func runBytes(r *core.Run, bounds map[string]interface{}) bool {
 	maxLen := r.Pick(3, 4)
 	ms := []int{0, 1, 2, 4, 5, 10, 12} // global, global/strict, func, eval, ieval? (see modes order) - resolved below
 	ms = pickModes("global", "global/strict", "func", "eval", "newfunc", "method/strict", "generator")
+	if r.Quick() {
+		ms = pickModes("global", "global/strict", "func", "eval", "method/strict")
+	}
 	k := int64(len(symbols))
 	for l := 1; l <= maxLen; l++ {
 		total := int64(1)
@@ -601,6 +604,9 @@ var editTokens = []string{
 
 func runEdits(r *core.Run, bounds map[string]interface{}) bool {
 	ms := pickModes("global", "global/strict", "func", "eval/strict")
+	if r.Quick() {
+		ms = pickModes("global", "func/strict", "eval")
+	}
 	type job struct {
 		seed int
 		toks []string
